@@ -1,9 +1,116 @@
+"""C05: sprints terminate within the configured limits (Engine.tla family) and emitted text stays within the length
+limits (Limits.tla, LimitsGen.tla, LimitsTrace.tla; harness c05-limits)."""
+import json
+import os
+import re
+from concurrent.futures import ThreadPoolExecutor
+
 from checks import engine_family
+from lib import vlib
+
+QUICK = dict(TemplateVals="{0, 1, 2, 3, 4, 70, 3000}", FieldVals="{0, 1, 4}", ResultVals="{0, 4}",
+             Lens="{0, 1, 2, 3, 4, 5, 23, 64, 65, 71, 2048, 2049, 3001}")
+
+
+def lim_key(name, d):
+    short = name.split(".", 1)[1]
+    if d.get("panic"):
+        m = re.search(r"([\w/.()*]+)\.(\w+)\(", d["panic"].split("|")[0].splitlines()[-1])
+        return f"Limits.{short} sink={d['sink']} small-template-limit={str(d['t'] < 3).lower()} panic-in={m.group(2) if m else '?'}"
+    return f"Limits.{short} sink={d['sink']} via={d['via']} width={d['w']}"
+
+
+def lim_validate(ctx, tracefile, chunk=40000):
+    lines = open(tracefile).read().splitlines()
+    chunks = [lines[i:i + chunk] for i in range(0, len(lines), chunk)]
+    paths = []
+    for i, c in enumerate(chunks):
+        p = os.path.join(ctx.work, f"limchunk{i}.ndjson")
+        open(p, "w").write("\n".join(c) + "\n")
+        paths.append(p)
+
+    def one(i):
+        r = ctx.tlc("LimitsTrace", "LimitsTrace.cfg", workers=1, timeout=1800, files={"trace.ndjson": paths[i]})
+        if r.distinct != len(chunks[i]):
+            raise vlib.Infra(f"trace validation consumed {r.distinct} of {len(chunks[i])} lines")
+        drift = len(re.findall(r'^<<"DRIFT", ', r.out, re.M))
+        return [(name, json.loads(chunks[i][l - 1])) for (name, l, _) in r.viols], drift
+    with ThreadPoolExecutor(4) as ex:
+        res = list(ex.map(one, range(len(chunks))))
+    return [v for r in res for v in r[0]], sum(r[1] for r in res), len(lines)
+
+
+def lim_rerun(ctx, case):
+    d = os.path.join(ctx.work, "limconfirm")
+    os.makedirs(d, exist_ok=True)
+    cf = os.path.join(d, "c.ndjson")
+    c = case["line"]
+    open(cf, "w").write(json.dumps(dict(t=c["t"], f=c["f"], r=c["r"], sink=c["sink"], n=c["n"], expect=c["expect"], limit=c["limit"])) + "\n")
+    out = os.path.join(d, "t.tsv")
+    ctx.harness(["c05-limits", "-in", cf, "-out", out])
+    tf = os.path.join(d, "t.ndjson")
+    n = ctx.merge_trace([out], tf)
+    if n == 0:
+        return set()
+    viols, _, _ = lim_validate(ctx, tf)
+    return {lim_key(nm, l) for nm, l in viols}
+
+
+def limits(ctx):
+    q = ctx.tier == "quick"
+    consts = QUICK if q else {}
+    mc = ctx.tlc("Limits", "Limits.cfg", timeout=1200, workers=8, constants=consts)
+    if mc.violated:
+        raise vlib.Infra(f"Limits.tla itself violates {mc.violated}")
+    neg = ctx.tlc("Limits", "Limits.cfg", timeout=600, workers=4, constants=dict(consts, Quirks='{"ellipsis_small"}'), expect_violation=True)
+    if neg.violated != "NoPanic":
+        raise vlib.Infra("negative run: the ellipsis_small quirk did not violate NoPanic (vacuous invariant)")
+    cases = os.path.join(ctx.work, "limcases.ndjson")
+    ctx.tlc("LimitsGen", "LimitsGen.cfg", timeout=1200, workers=1, constants=dict(consts, OutFile=json.dumps(cases)))
+    ncases = sum(1 for _ in open(cases))
+    outs, st = ctx.shards("c05-limits", cases, os.path.join(ctx.work, "lim.trace"))
+    tf = os.path.join(ctx.work, "limtrace.ndjson")
+    nlines = ctx.merge_trace(outs, tf)
+    if nlines == 0:
+        raise vlib.Infra(f"no limit case could be run: {[s.get('errors') for s in st][:2]}")
+    viols, drift, _ = lim_validate(ctx, tf)
+    if drift:
+        vlib.log(f"DRIFT spec=Limits: {drift} of {nlines} recorded texts differ from what Limits.tla says comes out (no verdict)")
+    by_key = {}
+    for name, line in viols:
+        by_key.setdefault(lim_key(name, line), (name, line))
+    known = {k["key"] for k in vlib.load_known().get("findings", []) if k["property"] == "C05"}
+    for key, (name, line) in sorted(vlib.limit_new(by_key, "C05").items()):
+        case = dict(kind="limits", pred=name, line=line)
+        if key not in known and key not in lim_rerun(ctx, case):
+            raise vlib.Infra(f"violation {key} from {line['src']} did not reproduce in a fresh process")
+        what = f"panic {line['panic'][:300]}" if line["panic"] else f"{line['out']} characters emitted / {line['stored']} stored, limit {line['limit']}, valid={line['valid']}"
+        ctx.violation(key, f"{name} fails for sink {line['sink']} with MaxTemplateChars={line['t']} MaxFieldChars={line['f']} MaxResultChars={line['r']} and a value of {line['n']} characters of {line['w']} bytes ({line['via']}): {what}", case)
+    all_lines = [json.loads(l) for l in open(tf)]
+    return dict(limit_cases_from_tlc=ncases, limit_engine_runs=nlines, limit_model_states=mc.distinct, limit_negative_run=neg.violated,
+                limit_texts_cut=sum(1 for l in all_lines if 0 <= l["out"] < l["n"]), limit_texts_dropped=sum(1 for l in all_lines if l["out"] < 0 and not l["panic"]),
+                limit_sinks=sorted({l["sink"] for l in all_lines}), limit_drift=drift, limit_predicate_failures=len(viols),
+                limit_sample=vlib.sample([l for l in all_lines if 0 <= l["out"] < l["n"]], 2))
+
+
 def run(ctx):
+    if ctx.replay:
+        rep = json.load(open(ctx.replay))
+        if rep["case"].get("kind") == "limits":
+            vlib.build_harness()
+            if rep["key"] in lim_rerun(ctx, rep["case"]):
+                print(f"VIOLATION property=C05 replay={ctx.replay}")
+                return 1
+            vlib.log("replay: not reproduced on the current tree")
+            return 0
     cov = engine_family.run(ctx, "C05")
     if isinstance(cov, int):
         return cov
+    cov.update(limits(ctx))
+    cov["states"], cov["transitions"] = ctx.states, ctx.transitions
     return ctx.finish("model_checking", cov, assumptions=[
         "flows are generated from Engine.tla's node kinds (act/failact/split/wait/enter) plus the repository's runner fixtures",
         "clock, UUID and random sources are the injectable gocommon generators",
-        "TLC evaluates the C05 predicates (EngineTrace.tla) on states projected by the Go harness from the public API"])
+        "TLC evaluates the C05 predicates (EngineTrace.tla, LimitsTrace.tla) on states projected by the Go harness from the public API",
+        "length limits: option values are non-negative; lengths are counted in characters (runes) as gocommon's Truncate does; sinks are send_msg / send_broadcast text, quick replies and attachments, say_msg text, contact name, contact field text, results saved by set_run_result and by a router from an expression and from message input",
+        "messages built from a channel template are outside the statement and not generated"])
